@@ -200,7 +200,10 @@ Proof. vm_compute. split; reflexivity. Qed.
 (** the hypotheses of the every-call theorems hold of it (the only field selection is [the_field]) *)
 Lemma only_field f : in_request Z the_op [] f -> f = the_field.
 Proof.
-  intros [H|(p & [] & _)]. cbn [ao_body the_op] in H.
+  intros (m & Hm & H).
+  assert (Em : m = ao_body the_op).
+  { destruct Hm as [|n0 name def _ _ Hl]; [reflexivity|discriminate]. }
+  subst m. cbn [ao_body the_op] in H.
   inversion H as [|k kids n f' Hin Hf]; subst.
   destruct Hin as [<-|[]]. inversion Hf as [f'' kids'|k' kids' n' f'' Hin' _]; subst; [reflexivity|destruct Hin'].
 Qed.
@@ -250,3 +253,72 @@ Example c04_usage_instance :
              end) (af_args the_field) = true
   /\ forallb (fun d => CoerceModel.type_known EE (Values.vd_type d)) the_defs = true.
 Proof. vm_compute. split; reflexivity. Qed.
+
+(** * round 6: C04's whole ValidateDocument model accepts the single-field projection of [the_op] at
+    [the_field] (both variables are mentioned by its argument literals) *)
+From ApiFu Require Cost.CostProj.
+Example projection_instance :
+  CostProj.projection_accepted Z EE dtn the_defs the_field = true /\
+  CostProj.used_defs Z the_defs the_field = the_defs /\
+  Values.ahas BridgeC04.n_Query EE = false /\ Values.ahas BridgeC04.n_Res EE = false.
+Proof. vm_compute. repeat split; reflexivity. Qed.
+
+(** * round 6: a real document through C03's composition — parsed from bytes, accepted by C04's
+    validator over a schema with an input object, walked by the cost rule: the list-typed field [l]
+    has a cost function and is called twice (directly and through the fragment), with the argument
+    default filled in / the variable's value, and the input-object literal.
+
+      type Query { l(k: Int = 5, o: In): [Int]  q: Query }   input In { a: Int }
+      query A($v: Int) { l(o: {a: 1})  q { ...F } }   fragment F on Query { l(k: $v) }      $v = 7 *)
+From ApiFu Require Syn.Ast Vld.Ast Vld.ValidatorModel ExeA.ArgData ExeA.ArgArgs Pipe.Convert Pipe.Compose Pipe.CostCompose Cost.CostRealDoc.
+From Coq Require Import String.
+Open Scope string_scope.
+Definition rn (s : String.string) : bytes := Vld.Ast.bs s.
+Definition r_vty (b : Vld.Ast.type_body) : Vld.Ast.type_def := {| Vld.Ast.t_req := []; Vld.Ast.t_body := b |}.
+Definition r_VS : Vld.Ast.schema :=
+  {| Vld.Ast.s_types :=
+       [ (rn "Int", r_vty (Vld.Ast.TScalar Vld.Ast.SInt)); (rn "String", r_vty (Vld.Ast.TScalar Vld.Ast.SString));
+         (rn "Boolean", r_vty (Vld.Ast.TScalar Vld.Ast.SBoolean));
+         (rn "In", r_vty (Vld.Ast.TInput [(rn "a", {| Vld.Ast.in_type := Vld.Ast.StNamed (rn "Int"); Vld.Ast.in_default := Vld.Ast.DNone |})]));
+         (rn "Query", r_vty (Vld.Ast.TObject
+            [ (rn "l", {| Vld.Ast.f_type := Vld.Ast.StList (Vld.Ast.StNamed (rn "Int"));
+                          Vld.Ast.f_args := [(rn "k", {| Vld.Ast.in_type := Vld.Ast.StNamed (rn "Int"); Vld.Ast.in_default := Vld.Ast.DValue |});
+                                             (rn "o", {| Vld.Ast.in_type := Vld.Ast.StNamed (rn "In"); Vld.Ast.in_default := Vld.Ast.DNone |})];
+                          Vld.Ast.f_req := [] |});
+              (rn "q", {| Vld.Ast.f_type := Vld.Ast.StNamed (rn "Query"); Vld.Ast.f_args := []; Vld.Ast.f_req := [] |}) ] [])) ];
+     Vld.Ast.s_query := rn "Query"; Vld.Ast.s_mutation := None; Vld.Ast.s_subscription := None;
+     Vld.Ast.s_directives := []; Vld.Ast.s_meta := []; Vld.Ast.s_impls := [] |}.
+Definition r_E : Values.env :=
+  [ (rn "Boolean", Values.TScalar Values.KBoolean);
+    (rn "In", Values.TInput [(rn "a", {| Values.in_type := Values.StNamed (rn "Int"); Values.in_default := None |})] Values.HNone);
+    (rn "Int", Values.TScalar Values.KInt); (rn "String", Values.TScalar Values.KString) ].
+Definition r_ES : ExeA.ArgData.schema :=
+  {| ExeA.ArgData.types :=
+       [ (rn "Int", ExeA.ArgData.NScalar ExeA.ArgData.KInt);
+         (rn "Query", ExeA.ArgData.NObject [ (rn "l", ExeA.ArgData.StList (ExeA.ArgData.StNamed (rn "Int")));
+                                             (rn "q", ExeA.ArgData.StNamed (rn "Query")) ] []) ];
+     ExeA.ArgData.query := rn "Query"; ExeA.ArgData.mutation := None; ExeA.ArgData.subscription := None;
+     ExeA.ArgData.s_inputs := r_E; ExeA.ArgData.s_dt := [];
+     ExeA.ArgData.s_argdefs :=
+       [ (rn "Query", [ (rn "l", [ (rn "k", {| Values.in_type := Values.StNamed (rn "Int"); Values.in_default := Some (Values.GInt 5) |});
+                                   (rn "o", {| Values.in_type := Values.StNamed (rn "In"); Values.in_default := None |}) ]) ]) ] |}.
+Definition r_query : bytes := rn "query A($v: Int) { l(o: {a: 1}) q { ...F } } fragment F on Query { l(k: $v) }".
+
+Definition r_front := Eval vm_compute in Pipe.Compose.parse_and_validate_order Vld.ValidatorModel.id_order r_VS [] r_query.
+Definition r_D : Vld.Ast.document :=
+  match r_front with Pipe.Compose.FAccepted d => Pipe.Convert.vld_of_syn d | _ => [] end.
+Definition r_A : Vld.Ast.document := Eval vm_compute in Vld.TypeInfoPure.pti_doc true r_VS [] r_D.
+
+Example real_document_accepted :
+  (exists d, r_front = Pipe.Compose.FAccepted d) /\
+  Vld.ValidatorModel.validate_model Vld.ValidatorModel.repaired Vld.ValidatorModel.id_order r_VS [] r_D = Vld.Ast.Done [] /\
+  CostRealDoc.scalars_leavesb r_VS = true /\ CoerceSpec.env_ok r_E = true.
+Proof. split; [eexists; reflexivity|]. vm_compute. repeat split; reflexivity. Qed.
+
+Example real_document_calls :
+  map (fun c => c_args c)
+      (snd (validate_cost_trace unit r_E (ExeA.ArgArgs.dt_oracle r_ES) true 2 (Pipe.CostCompose.default_cost 1) tt
+              (Pipe.CostCompose.c_ops r_ES r_A) (Pipe.CostCompose.c_frs r_ES r_A) [] [(rn "v", Values.JInt 7)] (-1)))
+  = [ [(rn "k", Values.GInt 5); (rn "o", Values.GMap [(rn "a", Values.GInt 1)])];
+      [(rn "k", Values.GInt 7)] ].
+Proof. vm_compute. reflexivity. Qed.
